@@ -16,7 +16,10 @@ WT=/tmp/wt/run_$ID
 git -C /repo worktree remove --force $WT 2>/dev/null
 git -C /repo worktree add -q --detach $WT HEAD || exit 2
 cd $WT || exit 2
-if ! git apply $OUT/patch.diff; then echo "PATCH DOES NOT APPLY to current HEAD"; git -C /repo worktree remove --force $WT; exit 3; fi
+# a seed whose context was changed by a later fix carries the same change re-made on the newer tree
+PATCH=$OUT/patch.diff
+[ -f $OUT/patch_rebased.diff ] && PATCH=$OUT/patch_rebased.diff
+if ! git apply $PATCH; then echo "PATCH DOES NOT APPLY to current HEAD"; git -C /repo worktree remove --force $WT; exit 3; fi
 echo "== patch: $(git diff --stat | tail -1)"
 echo "== existing tests with the change"
 CARGO_NET_OFFLINE=true cargo test --workspace --offline 2>&1 | grep -E "^test result" | awk '{p+=$4; f+=$6} END {print "passed", p, "failed", f}' | tee $OUT/tests.txt
